@@ -96,14 +96,15 @@ theorem parse_tag_eq_model (s : Str) (hs : ∀ c ∈ s, c < 128) :
     str_split_single, unpack3, iterate_list]
   have hpieces : ∀ x ∈ splitOn 45 s, ∀ c ∈ x, c < 128 := fun x hx c hc => hs c (mem_of_mem_splitOn 45 s x hx c hc)
   rcases hsp : splitOn 45 s with _ | ⟨is, _ | ⟨as, _ | ⟨ps, _ | ⟨q, r⟩⟩⟩⟩
-  · rfl
-  · rfl
-  · rfl
+  · first | rfl | simp [genexp, PyRt.mapM, unpack3, iterate, list_, str_split_single]
+  · first | rfl | simp [genexp, PyRt.mapM, unpack3, iterate, list_, str_split_single]
+  · first | rfl | simp [genexp, PyRt.mapM, unpack3, iterate, list_, str_split_single]
   · rw [hsp] at hpieces
     have his : ∀ c ∈ is, c < 128 := hpieces is (by simp)
     have has : ∀ c ∈ as, c < 128 := hpieces as (by simp)
     have hps : ∀ c ∈ ps, c < 128 := hpieces ps (by simp)
-    simp only [List.map_cons, List.map_nil, pure_bind, ok_bind, str_split_single, iterate_list]
+    simp only [List.map_cons, List.map_nil, pure_bind, ok_bind, str_split_single, iterate_list, genexp, PyRt.mapM, pure_ok,
+      list_iter, unpack3, set_new]
     have hq : ∀ (x l : Str), x ∈ splitOn 46 l → (∀ c ∈ l, c < 128) → ∀ c ∈ x, c < 128 :=
       fun x l hx hl c hc => hl c (mem_of_mem_splitOn 46 l x hx c hc)
     have inner : ∀ (i a : Str), (∀ c ∈ i, c < 128) → (∀ c ∈ a, c < 128) → ∀ t : List Fn.Tag,
@@ -142,7 +143,15 @@ theorem parse_tag_eq_model (s : Str) (hs : ∀ c ∈ s, c < 128) :
     · rfl
     · intro i hi t
       rw [middle i (hq i is hi his) t]; rfl
-  · rfl
+  · first
+    | rfl
+    | (simp [genexp, PyRt.mapM, unpack3, iterate, list_, str_split_single]; done)
+    | (simp only [genexp, PyRt.mapM, unpack3, iterate, list_, str_split_single, List.map_cons, ok_bind, pure_ok, iterate_list,
+         list_iter, List.length_cons]
+       rw [mapM_ok _ (fun v => match v with | .str x => .list ((splitOn 46 x).map .str) | v => v) _
+         (by intro x hx; simp only [List.mem_map] at hx; obtain ⟨y, _, rfl⟩ := hx; simp [str_split_single])]
+       simp
+       try rfl)
 
 /-! ### `parse_wheel_filename` -/
 
